@@ -438,11 +438,13 @@ def ff_faults(lines, owner):
             tokens = stripped.split()
             for pos, tok in enumerate(tokens):
                 if tok.startswith('+') and not tok.startswith('++'):
-                    new = list(tokens)
-                    new[pos] = tok + ' {"order": 2}'
                     if pos + 1 < len(tokens) and tokens[pos + 1].startswith('{'):
                         continue
-                    yield 'prefix-order-contradiction', idx, lines[:idx] + [' '.join(new)] + lines[idx + 1:]
+                    # '+' says order 1; every other explicit order contradicts it - also 0 (the order of an unprefixed atom)
+                    for other in ('2', '0', '-1', '"<"'):
+                        new = list(tokens)
+                        new[pos] = tok + ' {"order": %s}' % other
+                        yield 'prefix-order-contradiction', idx, lines[:idx] + [' '.join(new)] + lines[idx + 1:]
                     break
             if section in ('bonds', 'angles'):
                 yield 'wrong-atom-count', idx, lines[:idx] + [tokens[0] + ' -- 1 0.2'] + lines[idx + 1:]
